@@ -78,7 +78,7 @@ Proof. intros H. unfold so3_transform, so3_rotation. rewrite quat_matrix_unit by
 
 Definition SO3_core : GroupCore (SO3 RS eps).
 Proof.
-  refine (mkCore _ so3_valid hom3 _ _ _ _ _ _ _ _ _ _ _); cbn [g_compose g_inverse g_transform g_act g_tra g_actdim SO3].
+  refine (mkCore _ so3_valid hom3 (fun _ => hom3) _ _ _ _ _ _ _ _ _ _ _); cbn [g_compose g_inverse g_transform g_act g_tra g_actdim SO3].
   - intros X Y (ax & ay & az & aw & -> & Ha) (bx & by_ & bz & bw & -> & Hb).
     rewrite so3_compose_valid_eq, quat_mul_eq by assumption.
     eexists _, _, _, _; split; [reflexivity|]. apply quat_mul_unit; assumption.
@@ -152,7 +152,7 @@ Qed.
 
 Definition SE3_core : GroupCore (SE3 RS eps).
 Proof.
-  refine (mkCore _ se3_valid hom3 _ _ _ _ _ _ _ _ _ _ _); cbn [g_compose g_inverse g_transform g_act g_tra g_actdim SE3].
+  refine (mkCore _ se3_valid hom3 (fun _ => hom3) _ _ _ _ _ _ _ _ _ _ _); cbn [g_compose g_inverse g_transform g_act g_tra g_actdim SE3].
   - intros X Y (atx & aty & atz & ax & ay & az & aw & -> & Ha) (btx & bty & btz & bx & by_ & bz & bw & -> & Hb).
     rewrite se3_compose_valid_eq, quat_mul_eq by assumption. unfold rot_hom. mat_unfold.
     eexists _, _, _, _, _, _, _; split; [reflexivity|]. apply quat_mul_unit; assumption.
